@@ -2,24 +2,19 @@ package main
 
 import (
 	"fmt"
-	"math/big"
+	"os"
 
-	"github.com/bnb-chain/tss-lib/v2/common"
-
-	"verif/internal/core"
-	"verif/internal/netrun"
-	"verif/internal/ref"
-	"verif/internal/scen"
-	"verif/internal/statehash"
+	"verif/internal/rewrite"
 )
 
 func main() {
-	keys := scen.EcKey("small", 2, 1, 1)
-	cfg := netrun.Config{Proto: netrun.EcdsaSigning, EcKeys: keys, Threshold: 1, Msg: big.NewInt(5), SeedOverride: map[int]string{0: "a", 1: "b"}}
-	nw, _ := netrun.New(cfg)
-	nw.Start(0)
-	k := statehash.FieldBig(nw.Nodes[0].Party, "temp", "k")
-	fmt.Println("actual k", k)
-	fmt.Println("pred   k", common.GetRandomPositiveInt(core.NewDRBG("a"), ref.Secp256k1.N))
-	fmt.Println("reads", nw.Nodes[0].Rand.Reads)
+	src, _ := os.ReadFile(os.Args[1])
+	var fields, calls []string
+	if len(os.Args) > 2 && os.Args[2] == "party" {
+		fields = []string{"rnd"}
+		calls = []string{"StoreMessage"}
+	}
+	out, st, err := rewrite.File(src, fields, calls)
+	fmt.Fprintln(os.Stderr, st, err)
+	os.Stdout.Write(out)
 }
